@@ -1,0 +1,6 @@
+//go:build !verif
+
+package tsm1
+
+// verifPoint marks a durable step for the verification harness; it does nothing in normal builds.
+func verifPoint(name, path string) {}
